@@ -658,6 +658,40 @@ class KlongInterpreter():
         finally:
             self._context.pop()
 
+    def _node_syms(self, x, out):
+        """Collect the symbols an expression node refers to."""
+        if isinstance(x, KGSym):
+            out.append(x)
+        elif isinstance(x, KGFn):
+            self._node_syms(x.a, out)
+            self._node_syms(x.args, out)
+        elif isinstance(x, KGAdverb):
+            self._node_syms(x.a, out)
+        elif isinstance(x, list):
+            for q in x:
+                self._node_syms(q, out)
+        return out
+
+    def _node_compiled(self, x):
+        """
+        Compiled code memoised on a syntax-tree node. The compiler decides by the types bound to the
+        node's variables, so the memo is keyed by those types and redone when a variable has been
+        rebound to a value of another type.
+        """
+        syms = getattr(x, '_compiled_syms', None)
+        if syms is None:
+            syms = x._compiled_syms = self._node_syms(x, [])
+        ctx = self._context
+        try:
+            sig = tuple([type(ctx[s]) for s in syms])
+        except KeyError:
+            sig = None
+        memo = getattr(x, '_compiled', None)
+        if memo is None or memo[0] != sig:
+            memo = (sig, compile_expr(x, self) or False)
+            x._compiled = memo
+        return memo[1]
+
     def call(self, x):
         """
 
@@ -688,11 +722,8 @@ class KlongInterpreter():
             if x.is_op():
                 # Try compiled path for operator expressions (skips assignment/gradient)
                 if x.a.a not in ('::','∇'):
-                    compiled = getattr(x, '_compiled', None)
-                    if compiled is None:
-                        compiled = compile_expr(x, self) or False
-                        x._compiled = compiled
-                    if compiled and compiled is not False:
+                    compiled = self._node_compiled(x)
+                    if compiled:
                         fn, var_syms = compiled
                         try:
                             args = [self._context[s] for s in var_syms]
@@ -706,11 +737,8 @@ class KlongInterpreter():
                 return f(_x) if x.a.arity == 1 else f(_x, _y)
             elif x.is_adverb_chain():
                 # Try compiled path for adverb chains (reduce/scan)
-                compiled = getattr(x, '_compiled', None)
-                if compiled is None:
-                    compiled = compile_expr(x, self) or False
-                    x._compiled = compiled
-                if compiled and compiled is not False:
+                compiled = self._node_compiled(x)
+                if compiled:
                     fn, var_syms = compiled
                     try:
                         args = [self._context[s] for s in var_syms]
